@@ -151,7 +151,7 @@ pub fn decode(data: &[u8]) -> Option<(Shape, Case)> {
           }
           // first element of a group is an op kind for C10: fold it into the supported kinds
           if shape.prop == "C10" {
-            g[0] = g[0].rem_euclid(22);
+            g[0] = g[0].rem_euclid(24);
             g[4] = g[4].rem_euclid(600);
           }
           case.a.extend(g);
